@@ -285,6 +285,155 @@ def size_job(args):
     return out
 
 
+# ---------------------------------------------------------------------------------------------------------
+# routes: metadata (re-)serialised by the library's own operations (spec/MetaRoutes.tla)
+# ---------------------------------------------------------------------------------------------------------
+
+def _foreign_file(rows0, nrg, seed=0):
+    """a small valid file from 'another writer' (independent encoder), nrg row groups of 3 rows"""
+    from ..pqspec import writer as PW
+    schema = [{"name": "x", "type": "INT64", "repetition": "REQUIRED", "converted_type": None},
+              {"name": "s", "type": "BYTE_ARRAY", "repetition": "OPTIONAL", "converted_type": "UTF8"}]
+    rgs = []
+    for g in range(nrg):
+        xs = [rows0 + 3 * g + i for i in range(3)]
+        rgs.append({"num_rows": 3, "columns": [
+            {"path": ["x"], "codec": "UNCOMPRESSED", "dictionary": None, "statistics": "auto",
+             "pages": [{"version": 1, "encoding": "PLAIN", "values": xs, "def_levels": None}]},
+            {"path": ["s"], "codec": "UNCOMPRESSED", "dictionary": None, "statistics": "auto",
+             "pages": [{"version": 1, "encoding": "PLAIN", "values": [b"a%d" % xs[0], b"b%d" % xs[2]], "def_levels": [1, 0, 1]}]}]})
+    return PW.build_file({"created_by": "parquet-mr version 1.12.0 (build abc)", "kv": {"origin": "foreign"},
+                          "schema": schema, "row_groups": rgs})
+
+
+def _frame(pd, start, n):
+    return pd.DataFrame({"x": pd.Series(range(start, start + n), dtype="int64"),
+                         "s": pd.Series([None if i % 3 == 1 else "t%d" % i for i in range(start, start + n)], dtype=object)})
+
+
+def route_job(args):
+    jid, programs, base = args
+    fp = use_repo()
+    import shutil
+    import pandas as pd
+    from fastparquet import writer as W
+    I = the_idl()
+    out = {"jid": jid, "viol": [], "traces": [], "evals": 0, "executed": {}, "refused": {}}
+    seen = set()
+
+    def artefacts(d, pf):
+        arts = []
+        try:
+            arts.append(("handle", bytes(pf.fmd.to_bytes())))
+        except BaseException as e:  # noqa
+            arts.append(("handle", e))
+        try:
+            arts.append(("pickled-handle", bytes(pickle.loads(pickle.dumps(pf)).fmd.to_bytes())))
+        except BaseException as e:  # noqa
+            arts.append(("pickled-handle", e))
+        for root, _, fns in os.walk(d):
+            for fn in sorted(fns):
+                data = open(os.path.join(root, fn), "rb").read()
+                if len(data) >= 12 and data[-4:] == b"PAR1":
+                    n = int.from_bytes(data[-8:-4], "little")
+                    kind = fn if fn.startswith("_") or fn.startswith("cm-") else ("part file" if root != d or fn.startswith("part.") else "single file")
+                    if fn.startswith("cm-"):
+                        kind = "written by write_common_metadata"
+                    arts.append((kind, data[len(data) - 8 - n:len(data) - 8]))
+        return arts
+
+    for pi, P in enumerate(programs):
+        d = os.path.join(base, "r%d-%d" % (jid, pi))
+        os.makedirs(d)
+        src = "%s-%s" % (P["origin"], P["store"])
+        try:
+            # ---- source ----
+            if P["origin"] == "lib":
+                if P["store"] == "simple":
+                    path = os.path.join(d, "data.parquet")
+                    fp.write(path, _frame(pd, 0, 6), row_group_offsets=[0, 3], write_index=False,
+                             custom_metadata={"origin": "lib"})
+                else:
+                    path = os.path.join(d, "ds")
+                    fp.write(path, _frame(pd, 0, 6), row_group_offsets=[0, 3], write_index=False, file_scheme="hive",
+                             custom_metadata={"origin": "lib"})
+            else:
+                if P["store"] == "simple":
+                    path = os.path.join(d, "data.parquet")
+                    open(path, "wb").write(_foreign_file(0, 2))
+                else:
+                    path = os.path.join(d, "ds")
+                    os.makedirs(path)
+                    for g in range(2):
+                        open(os.path.join(path, "part.%d.parquet" % g), "wb").write(_foreign_file(3 * g, 1))
+            pf = fp.ParquetFile(path)
+            steps = [("source", [3, 3])] + list(zip(P["prog"], P["hist"]))
+            derived = False
+            for si, (op, want_rgs) in enumerate(steps):
+                sig = {"source": src, "op": op}
+                derived = derived or op == "slice"
+                try:
+                    if op == "slice":
+                        pf = pf[0:1]
+                    elif op == "pickle":
+                        pf = pickle.loads(pickle.dumps(pf))
+                    elif op == "append":
+                        fp.write(path, _frame(pd, 100 + si, 2), append=True, write_index=False,
+                                 file_scheme="simple" if P["store"] == "simple" else "hive")
+                        pf = fp.ParquetFile(path)
+                    elif op == "kvupdate":
+                        W.update_file_custom_metadata(path, {"origin": None, "step%d" % si: "v" * (si + 1)})
+                        pf = fp.ParquetFile(path)
+                    elif op == "remove":
+                        pf.remove_row_groups(pf.row_groups[0:1])
+                        pf = fp.ParquetFile(path)
+                    elif op == "merge":
+                        parts = sorted(os.path.join(r, f) for r, _, fs in os.walk(path) for f in fs
+                                       if f.endswith(".parquet") and not f.startswith("_"))
+                        W.merge(parts)
+                        pf = fp.ParquetFile(path)
+                    elif op == "common":
+                        W.write_common_metadata(os.path.join(d, "cm-%d" % si), pf.fmd)
+                except BaseException as e:  # noqa
+                    # an operation the library refuses (with an error) serialises nothing: not a verdict on the bytes
+                    out["refused"]["%s/%s" % (src, op)] = type(e).__name__
+                    break
+                out["executed"]["%s/%s" % (src, op)] = out["executed"].get("%s/%s" % (src, op), 0) + 1
+                for kind, b in artefacts(d, pf):
+                    a_sig = dict(sig, artefact=kind)
+                    if isinstance(b, BaseException):
+                        out["viol"].append((dict(a_sig, what="serialisation raised", exc=type(b).__name__), pi))
+                        continue
+                    key = (kind if kind != "part file" else "p", b)
+                    out["evals"] += 1
+                    probs = []
+                    try:
+                        back, end = compact.decode(b, 0, "FileMetaData", I, strict=False, problems=probs)
+                        if end != len(b):
+                            out["viol"].append((dict(a_sig, what="trailing bytes after the serialised struct"), pi))
+                        got = [int(rg["num_rows"]) for rg in back.get("row_groups", [])]
+                        if (kind in ("handle", "pickled-handle") or (kind in ("_metadata", "single file") and not derived)) \
+                                and got != list(want_rgs):
+                            out["viol"].append((dict(a_sig, what="serialised metadata does not carry the handle's row groups"), pi))
+                    except Exception as e:  # noqa
+                        out["viol"].append((dict(a_sig, what="serialised metadata cannot be decoded", exc=type(e).__name__), pi))
+                        continue
+                    if key in seen:
+                        continue
+                    seen.add(key)
+                    try:
+                        toks, _ = compact.tokenize(b, 0)
+                        out["traces"].append({"root": "FileMetaData", "tolerate_empty": True, "tokens": clean_tokens(toks),
+                                              "sig": a_sig, "si": pi, "digest": hash(b)})
+                    except Exception as e:  # noqa
+                        out["viol"].append((dict(a_sig, what="serialised metadata cannot be tokenised", exc=type(e).__name__), pi))
+        except BaseException:  # noqa
+            out["error"] = traceback.format_exc()
+        finally:
+            shutil.rmtree(d, ignore_errors=True)
+    return out
+
+
 def run(tier, seed):
     t = Timer()
     ev = Evidence(PID, tier, seed, "model_checking")
@@ -340,6 +489,45 @@ def _run(ev, work, thorough):
                     _collect(ev, verd, rr, [sh], traces)
             continue
         _collect(ev, verd, r, j[1], traces)
+    # ---- routes: metadata re-serialised by the library's own operations (MetaRoutes.tla) ----
+    cfg = os.path.join(work, "mr.cfg")
+    T.write_cfg(cfg, spec="Spec", constants=dict(Sources="<- SourcesAll", MaxOps=3 if thorough else 2),
+                invariants=["RowGroupsPositive", "Export"], check_deadlock=False)
+    rres = T.run_tlc("MetaRoutesMC", cfg, work, workers=4, timeout=1200, coverage=True)
+    programs = rres.printed_json()
+    if not rres.ok or not programs:
+        raise T.TLCError("MetaRoutes: %s\n%s" % (rres.violated, rres.out[-1500:]))
+    ev.add_tlc("MetaRoutes: source x operation programs that make the library serialise metadata", rres, programs=len(programs))
+    rbase = os.path.join(work, "routes")
+    os.makedirs(rbase)
+    rjobs = [(i, programs[i::16], rbase) for i in range(16) if programs[i::16]]
+    executed, refused, digests = {}, {}, set()
+    for j, r in zip(rjobs, pmap(route_job, rjobs, job_timeout=900)):
+        if isinstance(r, Crashed):
+            verd.add({"what": "interpreter crashed or hung while re-serialising metadata"}, {"first_program": j[1][0]})
+            continue
+        if not isinstance(r, dict) or "error" in r:
+            raise RuntimeError("machinery failed:\n%s" % (r if not isinstance(r, dict) else r["error"]))
+        ev.evaluations += r["evals"]
+        for k, v in r["executed"].items():
+            executed[k] = executed.get(k, 0) + v
+        refused.update(r["refused"])
+        for sig, pi in r["viol"]:
+            verd.add(sig, {"program": j[1][pi]})
+        for t in r["traces"]:
+            if t["digest"] not in digests:
+                digests.add(t["digest"])
+                traces.append(t)
+        for P in j[1]:
+            ev.nontrivial.add(json.dumps(P, sort_keys=True))
+    ev.extra["routes_executed"] = executed
+    ev.extra["routes_refused_by_the_library"] = refused
+    need = ["lib-simple/slice", "lib-multi/slice", "foreign-simple/slice", "lib-simple/append", "lib-multi/append",
+            "lib-multi/remove", "lib-multi/merge", "lib-simple/kvupdate", "foreign-simple/kvupdate", "lib-simple/common",
+            "foreign-multi/merge", "lib-simple/pickle"]
+    missing = [k for k in need if not executed.get(k)]
+    if missing:
+        raise RuntimeError("routes never executed (vacuous): %s; refused: %s" % (missing, refused))
     # ---- acceptor over the re-serialised bytes ----
     if traces:
         tf = os.path.join(work, "thrift-traces.json")
